@@ -145,6 +145,12 @@ def run(prop: str, ctx: Ctx, quick: int = 1500, thorough: int = 25000) -> Result
             detail = next((f"line {i}: request {req!r}: implementation {exp!r}, model {got!r}"
                            for i, ((req, exp), got) in enumerate(zip(r.lines, rep)) if exp != got), d.detail)
             res.disagreements[0] = Disagreement(small, detail)
+    if prop == "C04":
+        # containment as seen from a worker thread: from_thread.check_cancelled() must report exactly
+        # _effectively_cancelled of the caller's chain (16 chain shapes; theorem C14_check_cancelled_iff)
+        from .c14 import check_cancelled_matrix
+
+        check_cancelled_matrix(res, tag="C04")
     return res
 
 
@@ -209,7 +215,12 @@ def _fails_model(prop: str, prog: dict) -> bool:
 
 def replay(prop: str, ctx: Ctx, case: Any) -> Result:
     res = Result(rule="replay")
-    run_programs(prop, [case], res)
+    if "check_cancelled" in case:
+        from .c14 import check_cancelled_matrix
+
+        check_cancelled_matrix(res, only=case["check_cancelled"], tag=prop)
+    else:
+        run_programs(prop, [case], res)
     return res
 
 
